@@ -41,6 +41,7 @@ package hclwrite
 //@ ghost old(n.list).members = add(del(old(n.list.members), n), ret)
 //@ ghost ret.pos = old(n.pos)
 //@ ensures new: fresh(ret) && ret != nil && ret.content == c && ret.list == old(n.list) && ret.before == old(n.before) && ret.after == old(n.after)
+//@ ensures neighbours: old(n.before).after == ret && old(n.after).before == ret
 //@ ensures det: detached(n)
 //@ ensures members: old(n.list).members == add(del(old(n.list.members), n), ret)
 //@ ensures wf: WF(old(n.list))
@@ -106,7 +107,7 @@ package hclwrite
 
 // verif:func newBody
 //@ assigns nothing
-//@ ensures fresh(ret) && ret != nil && InvBody(ret) && (forall k ref :: !has(ret.items, k)) && ret.children.first == nil
+//@ ensures fresh(ret) && ret != nil && InvBody(ret) && (forall k ref :: !has(ret.items, k)) && fresh(ret.children) && emptyTree(ret.children) && fresh(ret.items) && ret.parent == nil
 
 // verif:func (*Body).appendItem
 //@ requires InvBody(b)
@@ -121,3 +122,132 @@ package hclwrite
 //@ assigns b.children.first, b.children.last, b.children.members, mapof(b.items)
 //@ ensures empty: (forall k ref :: !has(b.items, k)) && b.children.first == nil
 //@ ensures inv: InvBody(b)
+
+// verif:func (*nodes).AppendUnstructuredTokens
+//@ requires WF(ns)
+//@ assigns ns.first, ns.last, ns.last.after, ns.members
+//@ ghost ns.members = ite(len(tokens) == 0, old(ns.members), add(old(ns.members), ret))
+//@ ensures none: len(tokens) == 0 ==> ret == nil && ns.first == old(ns.first) && ns.last == old(ns.last) && ns.members == old(ns.members)
+//@ ensures new: len(tokens) > 0 ==> fresh(ret) && ret != nil && ret.list == ns && ns.last == ret && ret.after == nil && ret.before == old(ns.last) && ns.members == add(old(ns.members), ret)
+//@ ensures first: len(tokens) > 0 ==> (old(ns.first) != nil ==> ns.first == old(ns.first)) && (old(ns.first) == nil ==> ns.first == ret)
+//@ ensures wf: WF(ns)
+
+// ---- leaf content constructors ----
+
+// verif:func newIdentToken
+//@ assigns nothing
+//@ ensures fresh(ret) && ret != nil && ret.Type == hclsyntax.TokenIdent && len(ret.Bytes) == len(name)
+
+// verif:func newIdentifier
+//@ assigns nothing
+//@ ensures fresh(ret) && ret != nil && ret.token == token
+
+// verif:func newComments
+//@ assigns nothing
+//@ ensures fresh(ret) && ret != nil && ret.tokens == tokens
+
+// verif:func newQuoted
+//@ assigns nothing
+//@ ensures fresh(ret) && ret != nil && ret.tokens == tokens
+
+// verif:func (*inTree).assertUnattached
+//@ requires it.parent == nil
+//@ pure
+
+// verif:func (*node).assertUnattached
+//@ requires n.list == nil
+//@ pure
+
+// ---- Attribute ----
+
+// verif:pred handle(h *node, ns *nodes) = h != nil && in(h, ns.members)
+// verif:pred interior(h *node) = h.before != nil && h.after != nil
+// verif:pred emptyTree(ns *nodes) = ns != nil && ns.first == nil && ns.last == nil && ns.members == emptyset()
+
+// InvAttr(a): the attribute's cached handles are attached to its own child list,
+// name and expression are interior nodes (so ReplaceWith may be applied to them),
+// and they hold an identifier and an expression.
+// verif:pred InvAttr(a *Attribute) = a.children != nil && WF(a.children) && handle(a.leadComments, a.children) && handle(a.name, a.children) && interior(a.name) && handle(a.expr, a.children) && interior(a.expr) && handle(a.lineComments, a.children) && a.leadComments != a.name && a.leadComments != a.expr && a.lineComments != a.name && a.lineComments != a.expr && a.leadComments != a.lineComments && typeis(a.name.content, ptr(identifier)) && unbox(a.name.content, ptr(identifier)) != nil && unbox(a.name.content, ptr(identifier)).token != nil && typeis(a.expr.content, ptr(Expression))
+
+// verif:func newAttribute
+//@ assigns nothing
+//@ ensures fresh(ret) && ret != nil && fresh(ret.children) && emptyTree(ret.children) && ret.parent == nil && ret.name == nil && ret.expr == nil
+
+// verif:func (*Attribute).init
+//@ requires emptyTree(a.children) && expr != nil && expr.parent == nil
+//@ assigns a.leadComments, a.name, a.expr, a.lineComments, a.children.first, a.children.last, a.children.members
+//@ ensures inv: InvAttr(a)
+//@ ensures expr: unbox(a.expr.content, ptr(Expression)) == expr
+
+// verif:func (*Attribute).setName
+//@ requires InvAttr(a)
+//@ assigns a.name, a.name.list, a.name.before, a.name.after, a.name.before.after, a.name.after.before, a.children.members
+//@ ensures inv: InvAttr(a)
+//@ ensures fresh: fresh(a.name)
+//@ ensures others: a.expr == old(a.expr) && a.leadComments == old(a.leadComments) && a.lineComments == old(a.lineComments)
+
+// verif:func (*Attribute).Expr
+//@ requires InvAttr(a)
+//@ pure
+//@ ensures ret == unbox(a.expr.content, ptr(Expression))
+
+// ---- Block and block labels ----
+
+// Assumed: token generation allocates fresh tokens and writes nothing else
+// (generate.go is covered by unit U8, not here).
+// verif:func TokensForValue
+//@ trusted
+//@ assigns nothing
+
+// InvLabels(bl): same shape as InvBody.
+// verif:pred InvLabels(bl *blockLabels) = bl.children != nil && WF(bl.children) && bl.items != nil && (forall r ref :: { has(bl.items, r) } has(bl.items, r) ==> r != nil && allocated(r)) && (forall k *node :: { has(bl.items, k) } has(bl.items, k) ==> in(k, bl.children.members))
+
+// verif:func (*blockLabels).Replace
+//@ requires bl.children != nil && bl.items != nil
+//@ assigns bl.children.first, bl.children.last, bl.children.members, mapof(bl.items)
+//@ ensures InvLabels(bl)
+//@ loop 1 invariant InvLabels(bl) && (forall m *node :: in(m, bl.children.members) ==> fresh(m))
+
+// verif:func newBlockLabels
+//@ assigns nothing
+//@ ensures fresh(ret) && ret != nil && InvLabels(ret) && fresh(ret.children) && fresh(ret.items) && ret.parent == nil
+
+// InvBlock(b): cached handles attached; the type name is an interior identifier node.
+// verif:pred InvBlock(b *Block) = b.children != nil && WF(b.children) && handle(b.leadComments, b.children) && handle(b.typeName, b.children) && interior(b.typeName) && handle(b.labels, b.children) && handle(b.open, b.children) && handle(b.body, b.children) && handle(b.close, b.children) && b.typeName != b.leadComments && b.typeName != b.labels && b.typeName != b.open && b.typeName != b.body && b.typeName != b.close && typeis(b.typeName.content, ptr(identifier)) && unbox(b.typeName.content, ptr(identifier)) != nil && unbox(b.typeName.content, ptr(identifier)).token != nil && typeis(b.labels.content, ptr(blockLabels)) && unbox(b.labels.content, ptr(blockLabels)) != nil && typeis(b.body.content, ptr(Body)) && unbox(b.body.content, ptr(Body)) != nil && unbox(b.labels.content, ptr(blockLabels)).children != b.children && unbox(b.body.content, ptr(Body)).children != b.children
+
+// verif:func newBlock
+//@ assigns nothing
+//@ ensures fresh(ret) && ret != nil && fresh(ret.children) && emptyTree(ret.children) && ret.parent == nil
+
+// verif:func (*Block).init
+//@ requires emptyTree(b.children)
+//@ assigns b.leadComments, b.typeName, b.labels, b.open, b.body, b.close, b.children.first, b.children.last, b.children.members
+//@ ensures inv: InvBlock(b)
+//@ ensures body: InvBody(unbox(b.body.content, ptr(Body)))
+//@ ensures labels: InvLabels(unbox(b.labels.content, ptr(blockLabels)))
+
+// verif:func NewBlock
+//@ assigns nothing
+//@ ensures fresh(ret) && ret != nil && InvBlock(ret)
+
+// verif:func (*Block).SetType
+//@ requires InvBlock(b)
+//@ assigns b.typeName, b.typeName.list, b.typeName.before, b.typeName.after, b.typeName.before.after, b.typeName.after.before, b.children.members
+//@ ensures inv: InvBlock(b)
+
+// verif:func (*Block).Body
+//@ requires InvBlock(b)
+//@ pure
+//@ ensures ret == unbox(b.body.content, ptr(Body)) && ret != nil
+
+// verif:func (*Block).labelsObj
+//@ requires InvBlock(b)
+//@ pure
+//@ ensures ret == unbox(b.labels.content, ptr(blockLabels)) && ret != nil
+
+// verif:func (*Block).SetLabels
+//@ requires InvBlock(b) && InvLabels(unbox(b.labels.content, ptr(blockLabels)))
+//@ assigns unbox(b.labels.content, ptr(blockLabels)).children.first, unbox(b.labels.content, ptr(blockLabels)).children.last, unbox(b.labels.content, ptr(blockLabels)).children.members, mapof(unbox(b.labels.content, ptr(blockLabels)).items)
+//@ ensures lbl: InvLabels(unbox(b.labels.content, ptr(blockLabels)))
+//@ ensures wf: WF(b.children)
+//@ ensures inv: InvBlock(b)
